@@ -275,7 +275,9 @@ def end_to_end(case):
         open(os.path.join(src, 'build.bfg'), 'w').write(
             "project('p')\n"
             "executable('prog', ['m.c', 'n.cpp'])\n"
-            "command('showenv', cmd=[%r, 'ID'])\n" %
+            "command('showenv', cmd=[%r, 'ID'])\n"
+            # a tool looked up by name on the configure-time PATH
+            "command('usetool', cmd=[system_executable('rec'), 'T'])\n" %
             os.path.join(BIN, 'rec'))
         args = []
         if case['toolchain']:
